@@ -564,7 +564,15 @@ Definition run_dhcp4 (c l : nat) (seed opcode mt : N) (chflag : bool) (ch ci yi 
   let b := mkbuf c l seed in
   let r := encode_dhcp4 b opcode mt (if chflag then Some ch else None) ci yi (if xflag then Some xid else None)
                         bc o order perm in
-  let m := with_rb (arr b) r rb_dhcp in
+  let m := match r with
+           | Ok s => if Nat.eqb (cap s) 0
+                     then sp (sp "ok 0 0" (show_hull (arr b)
+                               (dhcp4_nil_buffer b opcode mt (if chflag then Some ch else None) ci yi
+                                                 (if xflag then Some xid else None) bc o order perm)))
+                             (rb_dhcp s)
+                     else with_rb (arr b) r rb_dhcp
+           | _ => with_rb (arr b) r rb_dhcp
+           end in
   let o' := set_opt 53 [mt] o in
   let fits := Nat.leb 300 c && nodup_keys o && keys_ok o' && Nat.leb (opts_size o') SCRATCH
               && Nat.leb (241 + opts_size o') c
